@@ -37,6 +37,7 @@
    lance-encoding passes); with less, the unchecked 8-byte stores of the real code can leave the buffer.
    Declared domain for compression: out capacity >= 2 * input length (what lance-encoding passes).  *)
 From LanceV Require Import Common.Base.
+From Coq Require Export Uint63.   (* only for the wire format of the correspondence checkers, at the end *)
 Local Open Scope N_scope.
 
 Definition FSST_ESC : N := 255.
@@ -302,7 +303,13 @@ Definition fsst_compress (built : option (list N * option N)) (tb0 : list N) (st
        | Some (tb, dead) => Ok (tb, comp_bulk (mk_enc (parse_table tb) dead) strs)
        end.
 
-(* ------------------------------------------------------------------ correspondence checkers *)
+(* ------------------------------------------------------------------ correspondence checkers
+   Wire format: bytes travel as primitive 63-bit integer literals (coqc parses them much faster than N
+   literals).  Only the checkers below use primitive integers. *)
+Definition n_of_int (i : PrimInt63.int) : N := Z.to_N (Uint63.to_Z i).
+Definition bytes_of_wire (l : list PrimInt63.int) : list N := map n_of_int l.
+Definition strs_of_wire (l : list (list PrimInt63.int)) : list (list N) := map bytes_of_wire l.
+
 Definition tb_strs_eqb (a b : list N * list (list N)) : bool :=
   nlist_eqb (fst a) (fst b) && nlists_eqb (snd a) (snd b).
 
@@ -311,12 +318,15 @@ Definition tb_strs_eqb (a b : list N * list (list N)) : bool :=
    recorded: outcome of compress = (exported table bytes, compressed values) and, after Ok, the outcome of
    decompress(table, compressed, capacity 8 * compressed length): None = "equal to the input values",
    Some d = the values d. *)
-Definition chk_fsst_roundtrip (i : (N * N) * N * N * list (list N))
-           (o : outcome (list N * list (list N) * outcome (option (list (list N))))) : bool :=
-  let '((tb_len, tb_fill), out_cap, offs_cap, strs) := i in
+Definition chk_fsst_roundtrip (i : (N * N) * N * N * list (list PrimInt63.int))
+           (o : outcome (list PrimInt63.int * list (list PrimInt63.int) * outcome (option (list (list PrimInt63.int))))) : bool :=
+  let '((tb_len, tb_fill), out_cap, offs_cap, wstrs) := i in
+  let strs := strs_of_wire wstrs in
   let tb0 := repeat tb_fill (N.to_nat tb_len) in
   match o with
-  | Ok (tb, comp, dec) =>
+  | Ok (wtb, wcomp, dec) =>
+      let tb := bytes_of_wire wtb in
+      let comp := strs_of_wire wcomp in
       let on := FSST_LEAST_INPUT_SIZE <=? total_len strs in
       (* compress: the model with the emitted table (and one of the possible first-added symbols) *)
       existsb (fun dead => outcome_eqb tb_strs_eqb (fsst_compress (Some (tb, dead)) tb0 strs out_cap offs_cap)
@@ -329,7 +339,7 @@ Definition chk_fsst_roundtrip (i : (N * N) * N * N * list (list N))
            (fsst_decompress tb comp (8 * total_len comp) (N.of_nat (length comp) + 1))
            (match dec with
             | Ok None => Ok strs
-            | Ok (Some d) => Ok d
+            | Ok (Some d) => Ok (strs_of_wire d)
             | Err => Err
             | Panic => Panic
             end)
@@ -339,6 +349,8 @@ Definition chk_fsst_roundtrip (i : (N * N) * N * N * list (list N))
 
 (* decompress alone, on code streams that need not come from the compressor.
    input: (table bytes, compressed values, out capacity, offsets capacity); recorded: outcome values *)
-Definition chk_fsst_decompress (i : list N * list (list N) * N * N) (o : outcome (list (list N))) : bool :=
+Definition chk_fsst_decompress (i : list PrimInt63.int * list (list PrimInt63.int) * N * N)
+           (o : outcome (list (list PrimInt63.int))) : bool :=
   let '(tb, strs, out_cap, offs_cap) := i in
-  outcome_eqb nlists_eqb (fsst_decompress tb strs out_cap offs_cap) o.
+  outcome_eqb nlists_eqb (fsst_decompress (bytes_of_wire tb) (strs_of_wire strs) out_cap offs_cap)
+              (match o with Ok d => Ok (strs_of_wire d) | Err => Err | Panic => Panic end).
